@@ -60,7 +60,18 @@ func (f *c19Factory) Dial(network, address string, dialFn base.DialFunc, args an
 	return f.remote, nil
 }
 
-var handlerStages = []string{"socks-fail", "bad-args", "dial-fails", "relay-client-eof", "relay-client-leaves", "relay-bridge-error", "relay-bridge-eof"}
+type c19ServerFactory struct{ wrapErr error }
+
+func (f *c19ServerFactory) Transport() base.Transport { return c19Transport{} }
+func (f *c19ServerFactory) Args() *pt.Args            { return nil }
+func (f *c19ServerFactory) WrapConn(net.Conn) (net.Conn, error) {
+	return nil, f.wrapErr
+}
+
+// (server-handshake-fails: the real serverHandler with a transport whose
+// handshake fails -- a scanner, a probe, a wrong key; the OR port is never
+// dialled, so everything stays on model connections)
+var handlerStages = []string{"server-handshake-fails", "socks-fail", "bad-args", "dial-fails", "relay-client-eof", "relay-client-leaves", "relay-bridge-error", "relay-bridge-eof"}
 
 func drain(c *wire.Conn) {
 	b := make([]byte, 512)
@@ -106,6 +117,17 @@ func realHandlerScenario(name string, stages []string, sigs []os.Signal, bound i
 						f.argsErr = errors.New("missing argument")
 					case "dial-fails":
 						f.dialErr = errors.New("connection refused")
+					}
+					if st == "server-handshake-fails" {
+						s.Spawn(fmt.Sprintf("prober%d", i), func() {
+							cw.Write([]byte("probe"))
+							drain(cw)
+						})
+						s.Spawn(fmt.Sprintf("handler%d", i), func() {
+							verifServerHandler(&c19ServerFactory{wrapErr: errors.New("handshake failed")}, sw, &pt.ServerInfo{})
+							done[i] = true
+						})
+						continue
 					}
 					s.Spawn(fmt.Sprintf("socks-client%d", i), func() {
 						if st == "socks-fail" {
